@@ -108,6 +108,7 @@ EXTRA = {
                                  "@decorate\ndef deep(\n    a,\n    b,\n):\n    for i in a:\n        if i:\n            while b:\n                if i > b:\n                    with open('f') as fh:\n                        b = b - i\n    return b\n"),
 }
 _P = {}
+_TIER = {"t": "quick"}
 
 
 def _proj():
@@ -128,7 +129,7 @@ def h_offsets(ctx):
     names = tuple(n for n in triggers.T if n not in SKIP) + ("dup",) + tuple(EXTRA)
     tname = ctx.pick("trigger", names)
     d = _proj()
-    nprep = ctx.pick("prepended_lines", (0, 1, 3, 6))
+    nprep = ctx.pick("prepended_lines", (0, 1, 3, 6) if _TIER["t"] == "quick" else (0, 1, 2, 3, 4, 6, 9, 15))
     wrapped = ctx.flag("wrapped_one_level_deeper")
     trailing_nl = ctx.flag("trailing_newline")
     crlf = False
@@ -202,6 +203,7 @@ ASSUMPTIONS = (
 
 
 def obligations(tier):
+    _TIER["t"] = tier
     return [
         Ob(name="K1-row-column-arithmetic-symbolic", engine="pathex", harness=h_positions,
            functions=["NestingViolationBuilder.create_typescript_nesting_violation/create_rust_nesting_violation", "RustUnwrapAnalyzer._find_unwrap_recursive",
